@@ -27,6 +27,9 @@ def vocab_category(s):
         toks = []
     prev = None  # previous significant token
     for i, (ty, val) in enumerate(toks):
+        # sympy's untokenize glues neighbouring operator tokens: `/ /` is evaluated as floor division
+        if ty == tokenize.OP and val == "/" and i > 0 and toks[i - 1] == (tokenize.OP, "/"):
+            cats.add("other-op")
         if ty in (tokenize.NL, tokenize.NEWLINE, tokenize.INDENT, tokenize.DEDENT, tokenize.ENDMARKER):
             continue
         if ty == tokenize.COMMENT:
